@@ -1,19 +1,32 @@
 SPEC = dict(
     property='C15',
     level='other',
-    level_text='Bounded (labelled) on the real functions: write_chem_formula -> parse_chem_formula is the identity on compositions (zero counts '
-               'dropped) over all table elements, isotope-prefixed keys, D/T, e/p/n, integer counts in [-200,500] and decimal counts, for '
-               'every separator and Hill ordering, and the mass of the string equals the mass of the composition; parsing is additive over '
-               'concatenation, repeated elements accumulate, bracketed isotopes stay distinct, explicit zero counts contribute nothing, each '
-               'parse returns a fresh dictionary; for every monosaccharide (names and synonyms) and random multisets the glycan composition '
-               'and mass are the count-weighted sums. The tokenisers are two compiled regexes driven by finditer, outside the verified subset.',
-    level_note='regex tokenisers exercised, not modelled; "unambiguous written form" for glycans is limited to single-name formulas.',
+    level_text='Mixed. DEDUCTIVE: chem_mass on a composition dictionary is proved to be the finite sum over its entries of count x atomic mass '
+               '(isotope table in monoisotopic mode and for isotope-labelled entries, average table otherwise, particle masses for e / p / n; '
+               'spec function CSUM defined by its empty / insert equations), rounded on request, to raise the formula error exactly when an '
+               'entry is unknown and never a KeyError / IndexError (the table fact "every natural element of the isotope table has an average '
+               'mass" is checked key by key on the real 476-entry table in every run); the bracket tokenizer _split_chem_formula is proved to '
+               'terminate on every text, to return components that tile the formula in order, each a whole [..] bracket or a bracket-free '
+               'text (so bracketed isotopes stay distinct from their element), and to reject unmatched brackets with a ValueError-family '
+               'error (the fold lemma it needs is proved by induction inside the run). BOUNDED (labelled) on the real functions: '
+               'write_chem_formula -> parse_chem_formula is the identity on compositions (zero counts dropped) over all table elements, '
+               'isotope-prefixed keys, D/T, e/p/n, integer counts in [-200,500] and decimal counts, every separator and Hill ordering; mass of '
+               'the string == mass of the composition; additivity over concatenation, accumulation of repeated elements, explicit zero counts, '
+               'fresh dictionary per parse; malformed texts rejected without hanging; glycan composition and mass are count-weighted sums for '
+               'every monosaccharide (names and synonyms) and random multisets.',
+    level_note='the element tokenizers are two compiled regexes driven by finditer (outside the verified subset): the write/parse round trip is '
+               'bounded only; "unambiguous written form" for glycans is limited to single-name formulas.',
     design_ref='DESIGN.md section 6, C15',
-    technique='bounded run-time contract check (round trip, additivity, linearity) as labelled stand-in',
+    technique='weakest-precondition VCs from the real AST of chem_mass and _split_chem_formula against sidecar contracts (finite-sum spec '
+              'function, loop variants, string VCs; ground table facts checked on the real table), discharged by z3 / cvc5; bounded run-time '
+              'contract check (round trip, additivity, linearity) as labelled stand-in for the regex tokenizers',
+    contracts=['chemmass'],
     bounded=[dict(name='C15-bounded', script='bounded/C15.py')],
     replay_finder='bounded/C15.py',
-    explanation='bounded check only in this revision',
-    proved_clauses=[], bounded_clauses=['write/parse round trip incl. mass', 'additivity, accumulation, isotope brackets, zero counts', 'glycan composition / mass linear; synonyms'],
+    explanation='mass of a composition and the bracket tokenizer proved; round trip bounded',
+    proved_clauses=['the mass of a composition is the sum of count x atomic mass over its entries (both modes, isotope entries, particles)',
+                    'bracketed isotope components are kept whole and distinct; the tokenizer terminates on every text'],
+    bounded_clauses=['write/parse round trip incl. mass', 'additivity, accumulation, zero counts', 'glycan composition / mass linear; synonyms'],
     uncovered_clauses=['glycan write/parse round trip for multi-name formulas (ambiguity of the written form not decided)'],
-    assumptions=[], trusted_base=['bounded/C15.py'],
+    assumptions=['A-REAL', 'A-FINSUM', 'LC-ROUND'], trusted_base=['z3 5.1', 'cvc5 1.0.3', 'pyvc', 'bounded/C15.py'],
 )
